@@ -453,9 +453,14 @@ def degenerate_cases(tier, rng):
     add("star6-ids-x17", GG.relabel(star(6), {i: 17 * i for i in range(1, 8)}))      # 720 automorphisms, two/three-digit ids
     add("10-components", disjoint(*[path(2) for _ in range(10)]))
     add("two-decalins", disjoint(mirror(GG.cycle(5)), mirror(GG.cycle(5))))          # 20 nodes, 2 equal components
-    # >= 100 atoms: beyond the enumerator budget of the model, oracle only
-    add("path120", path(120))
-    add("cycle100-one-O", with_label(GG.cycle(100), 0, element="O"))
+    # >= 100 atoms: beyond the enumerator budget of the model, oracle only (4-6 s of brute force each: thorough tier);
+    # the quick tier keeps a 40-atom chain and a 30-atom ring
+    if tier == "quick":
+        add("path40", path(40))
+        add("cycle30-one-O", with_label(GG.cycle(30), 0, element="O"))
+    else:
+        add("path120", path(120))
+        add("cycle100-one-O", with_label(GG.cycle(100), 0, element="O"))
     return out
 
 
@@ -486,6 +491,11 @@ def history_cases(tier, rng):
             out.append(dict(kind="hist", script="prune", name="hist/prune/options-first#%d" % k,
                             steps=[_pstep(sym, sub, core, {"explicit_h": False, "implicit_temp": True}),
                                    _pstep(asym, sub, core, {"automorphism": True}), _pstep(asym, sub, not core), _pstep(asym, sub, core)]))
+    # (a) ONE SynRule object shared by several reactors (different substrates, options, repeated)
+    for k, (tpl, subs) in enumerate([(SIBLINGS[0][0], ["CCCO", "CCCCN", "CCCO"]), (HAND[2][0], ["CC=CC.C=CCC", "CC=C(C)C.OC=CN", "CC=CC.C=CCC"]),
+                                     (ASYM[4][0], ["COO", "CCOO", "COO"])]):
+        out.append(dict(kind="hist", script="prune", name="hist/prune/shared-rule#%d" % k, share_rule=True,
+                        steps=[_pstep(tpl, sub, True, {"strategy": "comp"} if j == 1 else {}) for j, sub in enumerate(subs)]))
     out.append(dict(kind="hist", script="prune", name="hist/prune/other-substrates",
                     steps=[_pstep(SIBLINGS[0][1], "CCCCO"), _pstep(SIBLINGS[0][0], "CCCN"), _pstep(SIBLINGS[0][0], "CCCO"),
                            _pstep(HAND[0][0], HAND[0][2][0], invert=True), _pstep(HAND[1][0], HAND[1][2][0], invert=True)]))
